@@ -79,10 +79,10 @@ func init() {
 		rule: "one run = 2-6 caller tasks, each a deterministic workload (one of 16 entry-point families) over a private instance and private input from an embedded corpus plus the string literals of the library's own test files, spliced/mutated/truncated/enlarged from the tape (runes of all UTF-8 widths inserted, empty input, several kilobytes, nesting up to the parser limits), half of the runs with two tasks on byte-identical input, a third focused on one family; executed solo in order, interleaved one-at-a-time by the seeded baton scheduler (yield before every public call and inside every simulated reader/writer/visitor), solo again in reverse order (interleaved and second solo phase optionally preceded by a decoy input in the same reused caller buffer), and for samples in fresh processes (single workloads, and whole runs with the interleaved phase first, plain and race build); half of the workers run the same runs under the Go race detector, to which the scheduler is invisible; non-trivial = at least two tasks took at least two turns each; distinct = hash of (multiset of workload kinds, schedule projected on (task, yield site))",
 		realStub: map[string][]string{
 			"real": append([]string{"every package of the library: css, html, xml, json, js (lexer, parser, printer, Walk), strconv, buffer, parse helpers, Input, StreamLexer, BinaryReader/Writer, Indenter, Position/Error", "Go race detector"}, realLib...),
-			"stub": {"caller tasks (workloads)", "baton scheduler", "yielding reader / writer / visitor"},
+			"stub": {"caller tasks (workloads)", "baton scheduler", "yielding reader / writer / visitor", "vyield hook calls inserted into a scratch copy of the library for the instrumented build (the library code itself is unchanged)"},
 		},
 		assumptions: []string{
-			"inside one library call that touches no seam tasks are not interleaved; the race detector, to which the scheduler adds no happens-before edge, covers such calls regardless of the interleaving",
+			"inside library calls tasks are preempted only in the workers that run the instrumented build (a yield hook at every function entry and loop iteration of a scratch copy of the library; parking at every period-th hook), and that is sampled, not exhaustive; the race detector, to which the scheduler adds no happens-before edge, covers every access pair regardless of the interleaving",
 			"a synchronised cache (sync.Pool/Once/mutex) is not a violation; only a wrong transcript, a changed exported package variable or a race report with a frame in the library is",
 			"a panic of the library is an outcome that is compared, not a failure of this check (crash freedom is property C01, not claimed)",
 		},
